@@ -95,6 +95,14 @@ impl NumSession {
             _ => panic!("no procedure {}", name),
         }
     }
+    /// the raw value of an application (None on error / panic)
+    pub fn apply_raw(&self, p: &Procedure<f32>, argv: ArgVec<f32>) -> Option<Value<f32>> {
+        let env = self.sess.it.env.clone();
+        match guarded(|| Interpreter::<f32>::apply_procedure(p, argv, &env)) {
+            Ok(Ok(v)) => Some(v),
+            _ => None,
+        }
+    }
     pub fn apply(&self, p: &Procedure<f32>, args: &[&Opnd]) -> Outcome {
         let argv: ArgVec<f32> = args.iter().map(|o| o.val.clone()).collect();
         let env = self.sess.it.env.clone();
